@@ -449,3 +449,72 @@ func gen(tier string, r *lib.Rand, emitNow func(string)) {
 		emitNow(c)
 	}
 }
+
+// neighbours: perturbed case lines near c, for the hunt after a broken correspondence.
+func neighbours(c string, r *lib.Rand, emit func(string)) {
+	f := strings.Split(c, " ")
+	mutSrc := func(h string) string {
+		s := Mutate(r, string(lib.ParseBytes(h)))
+		if r.Chance(1, 3) {
+			s = Mutate(r, s)
+		}
+		return s
+	}
+	switch {
+	case len(f) == 2 && f[0] == "calc":
+		for i := 0; i < 24; i++ {
+			if e := mutateExpr(r, string(lib.ParseBytes(f[1]))); safeExpr(e) {
+				emit("calc " + hex(e))
+				if cliSafeExpr(e) && !strings.Contains(e, "\x00") {
+					emit(searchCase(false, true, "!", "!", "!", e))
+				}
+			}
+		}
+	case len(f) == 2:
+		for i := 0; i < 24; i++ {
+			emit("lib " + hex(mutSrc(f[1])))
+		}
+	case len(f) == 3 && f[0] == "generate":
+		for i := 0; i < 12; i++ {
+			s := mutSrc(f[2])
+			emit("generate " + f[1] + " " + hex(s))
+			emit("lib " + hex(s))
+		}
+	case len(f) == 3 && f[0] == "parallel":
+		l, k := lib.Atoi(f[1]), lib.Atoi(f[2])
+		for _, d := range [][2]int{{l + 1, k}, {l - 1, k}, {l, k + 1}, {l, k - 1}, {2 * l, k}, {k, k}, {k + 1, k}, {l + 7, k + 2}} {
+			if d[0] >= 1 && d[1] >= 0 && d[0] <= 100000 && d[1] <= 50 {
+				emit(fmt.Sprintf("parallel %d %d", d[0], d[1]))
+			}
+		}
+	case f[0] == "cli" && len(f) == 4 && (f[1] == "eval" || f[1] == "fmt" || f[1] == "fmtb") && f[2] != "nofile":
+		for i := 0; i < 8; i++ {
+			s := mutSrc(f[3])
+			emit("cli " + f[1] + " stdin " + hex(s))
+			emit("lib " + hex(s))
+		}
+	case f[0] == "cli" && len(f) == 5 && f[1] == "gen" && f[3] != "nofile":
+		for i := 0; i < 8; i++ {
+			s := mutSrc(f[4])
+			emit("cli gen " + f[2] + " stdin " + hex(s))
+			emit("lib " + hex(s))
+		}
+	case f[0] == "cli" && len(f) == 8 && f[1] == "search":
+		e, ok := optArg(f[7])
+		for i := 0; i < 8; i++ {
+			ne := e
+			if ok && r.Chance(1, 2) {
+				ne = mutateExpr(r, e)
+			}
+			if !ok || !cliSafeExpr(ne) || strings.Contains(ne, "\x00") {
+				continue
+			}
+			p, a, d := pTokens[r.Intn(len(pTokens))], costTokens[r.Intn(len(costTokens))], costTokens[r.Intn(len(costTokens))]
+			if strings.Contains(p+a+d, "\x00") {
+				continue
+			}
+			emit(searchCase(f[2] == "1", true, p, "!", "!", ne))
+			emit(searchCase(false, true, "!", a, d, ne))
+		}
+	}
+}
